@@ -631,6 +631,16 @@ func (h *hist) cmpIter(t *target, rd reader, site string, cls string, m map[stri
 		return
 	}
 	if failKey != "" {
+		// Two input classes get one backend-independent / bound-independent key
+		// each, because the cause is (PrefixDB) or is not (an error on opening)
+		// a function of the finer classification.
+		emptyBound := (start != nil && len(start) == 0) || (end != nil && len(end) == 0)
+		switch {
+		case strings.HasPrefix(failKey, "iter-open-error") && emptyBound:
+			failKey = "iter-open-error:" + t.name + ":empty-non-nil-bound"
+		case strings.HasPrefix(failKey, "iter-missing:rev:prefixdb") && strings.Contains(cls, ":prefix-ends-ff:nil-end"):
+			failKey = "iter-missing:rev:prefixdb:prefix-ends-ff:nil-end"
+		}
 		h.mism(t, failKey, "%s", failMsg)
 		return
 	}
@@ -854,7 +864,11 @@ func (h *hist) opBatch(v int) {
 			db := h.view(t, v)
 			var b dbm.Batch
 			if sized {
-				b = db.NewBatchWithSize(8)
+				// >= pebble's 12-byte batch header: pebble v1.1.5 panics in
+				// Batch.Reset (on Close) for a never-used batch pre-sized below
+				// that when the batch did not come from its sync.Pool, which
+				// would make this check's outcome depend on pool/GC state.
+				b = db.NewBatchWithSize(64)
 			} else {
 				b = db.NewBatch()
 			}
@@ -898,9 +912,6 @@ func (h *hist) opBatch(v int) {
 		})
 		if pv != nil || err != nil {
 			k := "error:batch:" + h.viewName(v) + ":" + t.name + cls
-			if len(ops) == 0 && sized {
-				k = "error:batch-empty-presized:" + t.name
-			}
 			h.fail(t, k, "batch (%d ops, presized=%v) %s: panic=%v err=%v", len(ops), sized, stage, pv, err)
 		}
 		if mode < 2 && len(ops) > 0 {
